@@ -22,6 +22,7 @@
 
 import io
 from dataclasses import fields
+from io import BytesIO
 from typing import BinaryIO, ClassVar, Iterator, List, Set, Tuple
 
 import leb128
@@ -56,11 +57,18 @@ class _ExprEncoder(_StandaloneEncoder[List[Operation]]):
     def decode(
         self, io: BinaryIO, byteorder: ByteOrder, ptr_size: int
     ) -> Tuple[List[Operation], int]:
-        length, len_read = leb128.u.decode_reader(io)
+        try:
+            length, len_read = leb128.u.decode_reader(io)
+        except EOFError as err:
+            raise ValueError("unexpected end of data") from err
+        expr_data = io.read(length)
+        if len(expr_data) != length:
+            raise ValueError("unexpected end of data")
+        expr_io = BytesIO(expr_data)
         ops = []
         op_bytes_read = 0
         while op_bytes_read < length:
-            op, op_read = Operation.decode(io, byteorder, ptr_size)
+            op, op_read = Operation.decode(expr_io, byteorder, ptr_size)
             ops.append(op)
             op_bytes_read += op_read
         return ops, len_read + op_bytes_read
